@@ -17,6 +17,7 @@ import (
 	"encoding/hex"
 	"encoding/json"
 	"fmt"
+	"io"
 	"sort"
 	"strings"
 	"unicode/utf8"
@@ -145,6 +146,15 @@ func exercise(in Input) string {
 				nodes++
 				_ = x.Path()
 				_ = x.DefaultValues()
+				// the accessors that answer from a cache the second time: asked twice
+				for twice := 0; twice < 2; twice++ {
+					_ = x.Namespace()
+					_, _ = x.InstantiatingModule()
+					_ = x.ReadOnly()
+					_, _ = x.GetWhenXPath()
+					_ = x.IsDir() || x.IsLeaf() || x.IsLeafList() || x.IsList() || x.IsContainer() || x.IsChoice() || x.IsCase()
+					_ = x.Modules()
+				}
 				if t := x.Type; t != nil {
 					_ = t.Range.String() + t.Length.String()
 					_ = t.Equal(t)
@@ -164,6 +174,13 @@ func exercise(in Input) string {
 			for _, p := range finds {
 				e.Find(p)
 			}
+			e.Print(io.Discard)
+			if m := mm[n]; m.Namespace != nil {
+				_, _ = ms.FindModuleByNamespace(m.Namespace.Name)
+				_, _ = ms.FindModuleByNamespace(m.Namespace.Name)
+			}
+			_, _ = ms.FindModuleByNamespace("urn:nosuch")
+			_, _ = ms.FindModuleByNamespace("urn:nosuch")
 		}
 	}
 	return "clean"
